@@ -1,6 +1,7 @@
 import TrionModel.Props.C08Full
 import TrionModel.Lemmas.SimpDeferred
 import TrionModel.Lemmas.SimpArithFwd
+import TrionModel.Lemmas.AsmRetryAgree
 /-!
 # C08 (statement level) with `Deferred` names in the table of the first attempt
 
@@ -14,6 +15,9 @@ What is true and proved here:
   hence `DataExpr::apply` writes the same bytes whenever both routes complete;
 * `du_retry_of_fresh`, `du_fresh_of_retry`: for a number operand the two routes differ in ACCEPTANCE at most by an arithmetic
   overflow: if one delivers the number `w`, the other delivers `w` or is diagnosed with `EvalError::Overflow`.
+* `stmt_order_independent_deferred_partial`, `stmt_order_independent_deferred_number`: an instruction statement deferred by
+  an unknown or a Deferred name: if the re-run and the fresh assembly both complete, same instruction — no condition at
+  number positions, operands free of Deferred names at the register / address positions.
 What is FALSE (finding K6, `acceptance_differs_without_overflow`): that acceptance can differ only through an arithmetic
 overflow.  `.global x; ADDS r1, r2, -(x - r0); .const x, 0` assembles (`11 18`, `ADDS r1, r2, r0`): with `x` Deferred the
 operand is swapped to `r0 - x`, which is `r0` once `x = 0`.  With `.const x, 0` ABOVE the statement `0 - r0` becomes `-r0`
@@ -87,6 +91,90 @@ theorem du_bytes_order_independent_deferred {t₁ t₂ : Table} (hs : Table.Sub 
   rw [w₁] at w₂
   simp only [Out.ok.injEq, Prod.mk.injEq] at w₂
   exact ⟨w₂.1, w₂.2.1⟩
+
+/-- C08 (instructions, Deferred names allowed in `t₁`)  First `assemble` over `t₁` deferred — by an unknown name or by a
+name declared `.global` and not yet valued — and queued `fs1`.  If the re-run from `fs1` over `t₂ ⊇ t₁` AND the fresh
+assembly over `t₂` both complete, they give the same instruction (same address: the same bytes).
+No condition at the operand positions that need a number (`Immediate`, `Offset`: branch / `BL` / `ADR` targets, `SVC`,
+`BKPT`, `UDF`, `RSBS`'s `#0`), whatever the operand mentions.  At the `ImmReg / Address / AddrOffset` positions the operand
+must not MENTION a Deferred name of `t₁` (`noDeferredIn`).
+
+FULL-STRENGTH STATEMENT, not proved: the same without `hp`.  What is missing is "both accepted ⇒ same register / address
+shape" for a register-mixed operand that was simplified around a Deferred name; no counter-example was found (650k
+statements over `{r0, r1, x, ±1, 5}`), and for such operands ACCEPTANCE itself is order dependent (K6 below). -/
+theorem stmt_order_independent_deferred_partial {t₁ t₂ : Table} (hs : Table.Sub t₁ t₂) (hT : Table.Ok t₂) (addr : Nat)
+    (name : Bytes) (args : List Arg) (hlit : ∀ a ∈ args, Simp.litsOk a = true) (c : Bytes) (fs1 : Front.St)
+    (h1 : Front.build addr name args (frontEval t₁) true = .deferred c fs1)
+    (hp : ∀ t, Front.mnemonic name = some t → ∀ p ∈ List.zip (Front.kinds t) args, p.1.shape = true →
+      noDeferredIn t₁ p.2 = true)
+    (fs2 : Front.St) (i : Instr) (h2 : Front.assemble fs1 (frontEval t₂) false = (fs2, .completed))
+    (h3 : Front.build addr name args (frontEval t₂) true = .completed i) : fs2.instr = i := by
+  unfold Front.build at h1
+  cases hm : Front.mnemonic name with
+  | none => rw [hm] at h1; cases h1
+  | some t =>
+    rw [hm] at h1
+    simp only at h1
+    cases ha : Front.assemble ⟨addr, t, 0, args⟩ (frontEval t₁) true with
+    | mk st r =>
+      rw [ha] at h1
+      cases r with
+      | completed => cases h1
+      | error d => cases h1
+      | panic => cases h1
+      | deferred c' =>
+        simp only [Front.BuildOut.deferred.injEq] at h1
+        obtain ⟨rfl, rfl⟩ := h1
+        have agree := Front.assemble_retry_agree (frontEval t₁) (frontEval t₂) addr t args
+          (fun p hpz => growsA_any hs hT p.1 p.2 (hlit p.2 (List.of_mem_zip hpz).2) (hp t hm p hpz)) st c' ha false
+        simp only [Front.build, hm] at h3
+        cases hg : Front.assemble ⟨addr, t, 0, args⟩ (frontEval t₂) true with
+        | mk fsT rT =>
+          rw [hg] at h3
+          cases rT with
+          | deferred x => cases h3
+          | error x => cases h3
+          | panic => cases h3
+          | completed =>
+            simp only [Front.BuildOut.completed.injEq] at h3
+            have hf := assemble_completed_loc false hg
+            have := agree (by rw [h2]) (by rw [hf])
+            rw [h2, hf] at this
+            exact this.trans h3
+
+/-- C08 (instructions whose evaluated operands are all numbers, Deferred names allowed): no condition on the operands -/
+theorem stmt_order_independent_deferred_number {t₁ t₂ : Table} (hs : Table.Sub t₁ t₂) (hT : Table.Ok t₂) (addr : Nat)
+    (name : Bytes) (args : List Arg) (hlit : ∀ a ∈ args, Simp.litsOk a = true) (c : Bytes) (fs1 : Front.St)
+    (h1 : Front.build addr name args (frontEval t₁) true = .deferred c fs1)
+    (hk : ∀ t, Front.mnemonic name = some t → ∀ k ∈ Front.kinds t, k.shape = false)
+    (fs2 : Front.St) (i : Instr) (h2 : Front.assemble fs1 (frontEval t₂) false = (fs2, .completed))
+    (h3 : Front.build addr name args (frontEval t₂) true = .completed i) : fs2.instr = i := by
+  refine stmt_order_independent_deferred_partial hs hT addr name args hlit c fs1 h1 ?_ fs2 i h2 h3
+  intro t hm p hpz hsh
+  have := hk t hm p.1 (List.of_mem_zip hpz).1
+  rw [this] at hsh
+  cases hsh
+
+/-- non-vacuity: `B x + 2` at address 0 with `x` declared `.global` (Deferred) at the statement, `x = 6` later: deferred with
+the operand unchanged, the re-run completes with `B +4`, as does the fresh assembly -/
+example :
+    Front.build 0 [66] [.bin .add (.ident [120]) (.const 2)] (frontEval [([120], none)]) true =
+      .deferred [120] ⟨0, .b 14 0, 0, [.bin .add (.ident [120]) (.const 2)]⟩ ∧
+    Front.assemble ⟨0, .b 14 0, 0, [.bin .add (.ident [120]) (.const 2)]⟩ (frontEval [([120], some 6)]) false =
+      (⟨0, .b 14 4, 1, [.const 8]⟩, .completed) ∧
+    Front.build 0 [66] [.bin .add (.ident [120]) (.const 2)] (frontEval [([120], some 6)]) true = .completed (.b 14 4) :=
+  ⟨rfl, rfl, rfl⟩
+
+/-- non-vacuity, and the known acceptance difference by overflow: `.du32 (x + MAX) - MAX` with `x` Deferred is simplified
+to `x`; over `x = 5` the re-run gives 5, the fresh evaluation overflows in `5 + MAX` -/
+example :
+    evalIn [([120], none)] (.bin .sub (.bin .add (.ident [120]) (.const 9223372036854775807)) (.const 9223372036854775807)) =
+      .ok (.deferred [120] (.ident [120])) ∧
+    evalIn [([120], some 5)] (.ident [120]) = .ok (.complete (.const 5)) ∧
+    evalIn [([120], some 5)]
+      (.bin .sub (.bin .add (.ident [120]) (.const 9223372036854775807)) (.const 9223372036854775807)) =
+      .ok (.err (.overflow .add) (.bin .sub (.bin .add (.const 5) (.const 9223372036854775807)) (.const 9223372036854775807))) :=
+  ⟨rfl, rfl, rfl⟩
 
 /-! ### K6: acceptance can differ without any overflow -/
 
